@@ -182,6 +182,10 @@ def enumerate_task(task: dict):
     elif part == "flips":
         lo, hi = task["range"]
         yield from worldb.flips(base, range(lo, hi))
+    elif part == "edits":
+        lo, hi = task["range"]
+        yield from worldb.deletions(base, range(lo, min(hi, len(base))))
+        yield from worldb.insertions(base, range(lo, hi if hi < len(base) else len(base) + 1))
     elif part == "seeded":
         rng = rng_for(SEED, "closure", task["base_index"], "seeded")
         yield from worldb.seeded_faults(base, task["others"], rng, task["n"])
@@ -202,9 +206,11 @@ def build_tasks(tier: str, bases: list[dict]) -> list[dict]:
             step = max(1, cfg["batch"] // len(worldb.ALPHABET))
             for lo in range(0, len(t), step):
                 tasks.append({**common, "part": "flips", "range": [lo, min(len(t), lo + step)]})
+                # the other two single edits: one character lost, one spurious character inserted
+                tasks.append({**common, "part": "edits", "range": [lo, min(len(t), lo + step)]})
         rng = rng_for(SEED, "closure", bi, "others")
         others = [rng.choice(texts) for _ in range(4)]
-        tasks.append({**common, "part": "seeded", "others": others, "n": cfg["seeded_per_base"] * (1 if exhaustive else 3)})
+        tasks.append({**common, "part": "seeded", "others": others, "n": cfg["seeded_per_base"] * (1 if exhaustive else 2)})
     return tasks
 
 
@@ -217,6 +223,8 @@ def merge_small_tasks(tasks: list[dict], target: int) -> list[list[dict]]:
             return len(t["base"])
         if t["part"] == "flips":
             return (t["range"][1] - t["range"][0]) * (len(worldb.ALPHABET) - 1)
+        if t["part"] == "edits":
+            return (t["range"][1] - t["range"][0]) * (len(worldb.INSERT_ALPHABET) + 1)
         return t["n"]
 
     batches, cur, size = [], [], 0
@@ -481,11 +489,14 @@ def check(prop: str, tier: str, evidence_text: dict) -> int:
         "exhaustive": False,
         "exhaustive_subspace": {
             "what": f"all truncation offsets of every base; all single-symbol replacements over the {len(worldb.ALPHABET)}-"
-                    f"symbol alphabet for {'carrier/family' if cfg['exh_carriers_only'] else 'all'} bases of at most "
+                    f"symbol alphabet, all single deletions and all single insertions over a {len(worldb.INSERT_ALPHABET)}-symbol "
+                    f"alphabet for {'carrier/family' if cfg['exh_carriers_only'] else 'all'} bases of at most "
                     f"{cfg['exh_limit']} characters",
             "flip_tasks": exhaustive_bases,
             "truncations": agg["fault_kinds"].get("truncate", 0),
             "single_replacements": agg["fault_kinds"].get("flip", 0),
+            "single_deletions": agg["fault_kinds"].get("delete", 0),
+            "single_insertions": agg["fault_kinds"].get("insert", 0),
         },
         "faults_fired_by_kind": agg["fault_kinds"],
         "deliveries_by_entry": agg["entries"],
